@@ -93,19 +93,31 @@ def run(spec: KaniSpec, harnesses: list[KaniHarness] | None = None, jobs: int = 
             for h in hlist:
                 cmd += ["--harness", h.name]
             # own session, so that a timeout can kill cargo-kani together with its cbmc children
-            proc = subprocess.Popen(cmd, cwd=dst, stdout=subprocess.PIPE, stderr=subprocess.PIPE, text=True, env=env,
-                                    start_new_session=True)
-            try:
-                so, se = proc.communicate(timeout=spec.timeout_s)
-                return cmd, so + "\n" + se, False
-            except subprocess.TimeoutExpired:
-                import signal
+            # output goes to a file (so that progress can be watched and nothing is lost on timeout)
+            logp = os.path.join(scratch, f"kani-{'playback' if with_playback else 'run'}.log")
+            live = os.environ.get("VERIF_KANI_LOG")
+            with open(logp, "w") as lf:
+                proc = subprocess.Popen(cmd, cwd=dst, stdout=lf, stderr=subprocess.STDOUT, text=True, env=env,
+                                        start_new_session=True)
+                if live:
+                    try:
+                        if os.path.lexists(live):
+                            os.remove(live)
+                        os.symlink(logp, live)
+                    except OSError:
+                        pass
+                timed = False
                 try:
-                    os.killpg(proc.pid, signal.SIGKILL)
-                except ProcessLookupError:
-                    pass
-                so, se = proc.communicate()
-                return cmd, (so or "") + "\n" + (se or ""), True
+                    proc.wait(timeout=spec.timeout_s)
+                except subprocess.TimeoutExpired:
+                    import signal
+                    timed = True
+                    try:
+                        os.killpg(proc.pid, signal.SIGKILL)
+                    except ProcessLookupError:
+                        pass
+                    proc.wait()
+            return cmd, open(logp, errors="replace").read(), timed
 
         cmd, out, timed_out = invoke(hs, False)
         res = parse(out, hs)
